@@ -115,7 +115,9 @@ def mon_c02(run):
             if starts[t] > 1:
                 bad.append("task %s started twice (no preemption in this run)" % t)
             rel = e[6][2]
-            if rel is None or tm < rel:
+            if rel is None or rel < 0:
+                bad.append("task %s started at %s although it was never released" % (t, tm))
+            elif tm < rel:
                 bad.append("task %s started at %s before its release time %s" % (t, tm, rel))
             ti = info.get(t)
             if ti is not None and ti["release"] is not None and ti["release"] >= 0 and tm < ti["release"]:
@@ -229,7 +231,7 @@ def mon_c03(run, variance):
     return bad
 
 
-def mon_c06(run):
+def mon_c06(run, ftg3_out=None):
     bad = []
     state = {}
     info = graph_info(run)
@@ -257,6 +259,16 @@ def mon_c06(run):
                 bad.append("task %s cancelled from %s" % (t, before))
             if op == "start" and t in cancelled_at:
                 bad.append("cancelled task %s started" % t)
+            if op == "start" and info.get(t, {}).get("terminal"):
+                # a join can no longer receive its inputs once every branch leading to it is cancelled (the conditional
+                # itself, when it has a direct edge to the join, is not a branch)
+                plain = [p for p in info[t]["parents"] if p in info and not info[p]["conditional"]]
+                if plain and all(state.get(p) == "CANCELLED" for p in plain):
+                    msg = ("join %s started although every branch leading to it (%s) is cancelled" % (t, plain))
+                    if ftg3_out is not None and len(plain) < len(info[t]["parents"]):
+                        ftg3_out.append(msg)      # known finding FTG3 (signature: the conditional has a direct edge to the join)
+                    else:
+                        bad.append(msg)
             if op == "cancel":
                 cancelled_at[t] = e[3]
             state[t] = after
